@@ -95,4 +95,13 @@ def replay(mod, pid, path):
 
 
 if __name__ == "__main__":
-    sys.exit(main())
+    try:
+        code = main()
+    except SystemExit:
+        raise
+    except BaseException:  # noqa - an unexpected failure of the harness itself is exit 2, never a verdict about the property
+        import traceback
+        traceback.print_exc()
+        sys.stderr.write("HARNESS-ERROR: the check did not run to completion\n")
+        code = 2
+    sys.exit(code)
